@@ -169,6 +169,7 @@ func (b *bloomcache) Rebuild(ctx context.Context) error {
 	// false negative until the next rebuild: the bloom-pointer atomic orders
 	// only the filter swap, not datastore visibility.
 	b.active.Store(false)
+	verifPoint("bloom.rebuild")
 	b.bloom.Store(fresh)
 
 	if err := b.populate(ctx, fresh); err != nil {
@@ -232,6 +233,7 @@ func (b *bloomcache) hasCached(k cid.Cid) (has bool, ok bool) {
 		return false, false
 	}
 	if b.BloomActive() {
+		verifPoint("bloom.has")
 		blr := b.bloom.Load().HasTS(k.Hash())
 		if !blr { // not contained in bloom is only conclusive answer bloom gives
 			b.hits.Inc()
@@ -284,6 +286,7 @@ func (b *bloomcache) Put(ctx context.Context, bl blocks.Block) error {
 	// See comment in PutMany
 	err := b.blockstore.Put(ctx, bl)
 	if err == nil {
+		verifPoint("bloom.put")
 		b.bloom.Load().AddTS(bl.Cid().Hash())
 	}
 	return err
@@ -299,6 +302,7 @@ func (b *bloomcache) PutMany(ctx context.Context, bs []blocks.Block) error {
 		return err
 	}
 	for _, bl := range bs {
+		verifPoint("bloom.put")
 		b.bloom.Load().AddTS(bl.Cid().Hash())
 	}
 	return nil
